@@ -847,3 +847,36 @@ def stmts_flat(s):
         else:
             out.append(x)
     return out
+
+
+def inline_single_returns(node, by_pat, rect, depth=3):
+    """copy of node in which calls of non-public members of `rect` (or free functions of the library) whose whole body is
+    `return expr;` are replaced by that expression with the parameters bound to the arguments: a closed form moved into a small
+    private helper reads the same as written in place"""
+    import copy
+
+    def subst(n, m):
+        if isinstance(n, list):
+            return [subst(x, m) for x in n]
+        if not isinstance(n, dict):
+            return n
+        if n.get("k") == "Ref" and n.get("d") in m:
+            return copy.deepcopy(m[n["d"]])
+        return {k: subst(v, m) for k, v in n.items()}
+
+    def rec(n, d):
+        if isinstance(n, list):
+            return [rec(x, d) for x in n]
+        if not isinstance(n, dict):
+            return n
+        n = {k: rec(v, d) for k, v in n.items()}
+        if n.get("k") == "Call" and d > 0 and n.get("cpat") in by_pat:
+            cal = by_pat[n["cpat"]]
+            b = stmts_of(cal.get("body"))
+            own = cal.get("rect") == rect and (cal.get("access", 2) != 0 or rect in struct_like(by_pat))
+            if own and len(b) == 1 and b[0].get("k") == "Return" and b[0].get("e") is not None and cal.get("params") and len(cal.get("params", [])) == len(n.get("args", [])) \
+                    and (n.get("obj") is None or strip(n["obj"]).get("k") == "This"):
+                m = {p["d"]: a for p, a in zip(cal["params"], n["args"])}
+                return rec(subst(b[0]["e"], m), d - 1)
+        return n
+    return rec(node, depth)
